@@ -56,6 +56,9 @@ func convertScenarioToAmmo(sc config.ScenarioConfig, reqs map[string]config.Requ
 			return nil, fmt.Errorf("failed to parse shoot %s: %w", sh, err)
 		}
 		if name == "sleep" {
+			if len(result.Requests) == 0 {
+				return nil, fmt.Errorf("sleep() can not be the first step of scenario %s: there is no request to pause after", sc.Name)
+			}
 			result.Requests[len(result.Requests)-1].Sleep += time.Millisecond * time.Duration(cnt)
 			continue
 		}
